@@ -210,7 +210,8 @@ class CmpGuard:
     src_a / src_b: functions body -> set of seed locals.
     """
 
-    def __init__(self, src_a, src_b, required, label, through="table", extra=()):
+    def __init__(self, src_a, src_b, required, label, through="table", extra=(), close=True):
+        self.close = close
         self.src_a = src_a
         self.src_b = src_b
         self.required = required if isinstance(required, (list, tuple, set)) else [required]
@@ -221,8 +222,8 @@ class CmpGuard:
 
     def edges(self, body):
         ta = Taint(body, through=self.through, extra_transparent=self.extra)
-        A = ta.closure(self.src_a(body))
-        B = ta.closure(self.src_b(body))
+        A = ta.closure(self.src_a(body)) if self.close else set(self.src_a(body))
+        B = ta.closure(self.src_b(body)) if self.close else set(self.src_b(body))
         tr = Tracker(body)
         n = 0
         self.found = []
